@@ -10,7 +10,8 @@ THEOREMS = [(M, "NQ.C06." + n) for n in [
     "instantiate_concrete", "instantiate_rotation", "instantiate_encode",
     "builder_positions_accepted", "accepted_positions_exempt", "templatesExempt_mono",
     "subst_assemble", "compile_commit_eq_flush", "compile_commit_eq_flush_init",
-    "nothing_left_after", "f7_old_counterexample"]]
+    "nothing_left_after", "f7_old_counterexample",
+    "compile_commit_eq_flush_interleaved", "reset_at_commit_counterexample"]]
 TRANSLATORS = ["template_table"]
 LEVEL_TEXT = (
     "Lean theorems: (1) instantiate substitutes template operands in place, so the instantiated "
@@ -21,7 +22,9 @@ LEVEL_TEXT = (
     "/repo and the inclusions decided by the kernel; (3) compile_commit_eq_flush: for EVERY history of "
     "segments (any builder activity; flush or compile+instantiate+commit) the subroutines sent and the "
     "final builder bookkeeping of the pre-compiled flow equal those of the program written with the "
-    "values and flushed (induction over the history), modelling compile() after the fix for F7 "
+    "values and flushed (induction over the history), also when operations are built between "
+    "compile and commit and several compiled subroutines are outstanding (committed oldest first; "
+    "compile_commit_eq_flush_interleaved), modelling compile() after the fix for F7 "
     "(witness for the old code proved). Tie: differential stream of the compiled bookkeeping model "
     "against the real connection after every operation, plus real-vs-real comparison of bytes, "
     "controller trace, arrays, shared memory and bookkeeping of both flows on the in-process pipeline.")
@@ -40,26 +43,38 @@ TRUSTED = [
     "proto-subroutines captured by wrapping builder.subrt_compile_subroutine on the instance",
 ]
 ASSUMPTIONS = [
+    "compiled subroutines are committed oldest first and an ordinary flush only happens while no "
+    "compiled subroutine is uncommitted (otherwise the controller legitimately sees another order)",
     "templates occur in rotation angle operands (the only SDK entry points that accept them)",
     "arrays are created without initial values; return_arrays=True",
     "NV transpiler in simulation mode (rotations pass through with their (n, d) operands)",
 ]
 
-F7_WITNESS = {"cfg": {"nv": False, "transp": False, "maxq": 5},
-              "segs": [{"body": [{"k": "new"}, {"k": "rot", "h": 0, "axis": "X", "n": {"t": "a"}, "d": 4},
-                                 {"k": "meas", "h": 0, "mode": "array", "inplace": False}],
-                        "pre": {"a": 16}}]}
+F7_SEGS = [{"body": [{"k": "new"}, {"k": "rot", "h": 0, "axis": "X", "n": {"t": "a"}, "d": 4},
+                     {"k": "meas", "h": 0, "mode": "array", "inplace": False}],
+            "pre": {"a": 16}}]
+# operations queued between compile() and commit_subroutine(), two subroutines outstanding
+INTERLEAVED = {"cfg": {"nv": False, "transp": False, "maxq": 5}, "events": [
+    {"k": "new"}, {"k": "rot", "h": 0, "axis": "X", "n": {"t": "a"}, "d": 4},
+    {"k": "meas", "h": 0, "mode": "array", "inplace": False},
+    {"k": "compile", "vals": {"a": 5}},
+    {"k": "new"}, {"k": "gate", "h": 1, "g": 1}, {"k": "meas", "h": 1, "mode": "array", "inplace": True},
+    {"k": "compile", "vals": {}},
+    {"k": "array", "len": 2}, {"k": "meas", "h": 1, "mode": "reg", "inplace": False},
+    {"k": "commit"}, {"k": "commit"}, {"k": "flush"}]}
 
 
 def run(ctx):
     from harness import precompile as H
     res = Result()
-    res.rule = ("random host programs (1-4 segments of qubit creation, gates, rotations with template or "
-                "constant angles 0..255, cnot, measurements into arrays/registers, new arrays; each "
-                "segment ends with flush or compile/instantiate/commit), generic and NV configs, with "
-                "and without NVSubroutineTranspiler, closing close(); non-trivial = at least one "
-                "pre-compiled segment containing a template; distinct by program")
+    res.rule = ("random host programs: blocks of qubit creation, gates, rotations with template or "
+                "constant angles 0..255, cnot, measurements into arrays/registers, new arrays; a block "
+                "ends with flush or compile; compiled subroutines are instantiated and committed oldest "
+                "first, immediately or while later blocks are being built (several outstanding); generic "
+                "and NV configs, with and without NVSubroutineTranspiler, closing close(); non-trivial = "
+                "at least one pre-compiled block containing a template; distinct by program")
     rng = ctx.rng
+    F7_WITNESS = {"cfg": {"nv": False, "transp": False, "maxq": 5}, "events": H.segs_to_events(F7_SEGS)}
 
     def fail(what, prog, detail):
         res.failures.append({"what": what, "kf": None, "input": {"prog": prog, "detail": detail}})
@@ -71,67 +86,93 @@ def run(ctx):
         res.evaluations += 1
         cfg = prog["cfg"]
         res.count("cfg:%s%s" % ("nv" if cfg["nv"] else "generic", "+transp" if cfg["transp"] else ""))
-        for seg in prog["segs"]:
-            res.count("term:" + ("flush" if seg["pre"] is None else "precompile"))
-            for st in seg["body"]:
-                res.count("step:" + st["k"])
-        has_t = any(isinstance(st.get("n"), dict) for seg in prog["segs"] for st in seg["body"])
+        for st in prog["events"]:
+            res.count("event:" + st["k"])
+        has_t = any(isinstance(st.get("n"), dict) for st in prog["events"])
         if has_t:
             res.nontrivial.add(json.dumps(prog, sort_keys=True))
+        if any(e["k"] in H.BUILD_KINDS and 0 < P["events"][i - 1]["outstanding"]
+               for i, e in enumerate(prog["events"]) if i > 0 and i < len(P["events"])):
+            res.count("interleaved: operation built while a compiled subroutine is uncommitted")
+        if any(r["outstanding"] >= 2 for r in P["events"]):
+            res.count("interleaved: two or more compiled subroutines outstanding")
         if P["error"] or D["error"]:
             res.count("flow-error")
             # no program of this vocabulary raises on a healthy tree (neither flow)
             fail("flows raise differently" if P["error"] != D["error"] else "both flows raise",
-                 prog, {"P": P["error"], "D": D["error"]})
+                 prog, {"P": P["error"], "D": D["error"], "P_msgs": P["msgs"], "D_msgs": D["msgs"]})
             return P, D
         # ---- oracle: real vs real
-        for i, (sp, sd) in enumerate(zip(P["segs"] + [P["close"]], D["segs"] + [D["close"]])):
-            where = "close" if i == len(P["segs"]) else "segment %d" % i
-            if sp["bytes"] != sd["bytes"]:
-                fail("bytes sent differ at " + where, prog, {"P": sp["bytes"], "D": sd["bytes"]})
-            elif sp["trace"] != sd["trace"]:
-                fail("controller trace differs at " + where, prog, {"P": sp["trace"], "D": sd["trace"]})
-            elif sp["state"] != sd["state"]:
-                fail("controller arrays / shared memory differ at " + where, prog,
-                     {"P": sp["state"], "D": sd["state"]})
-            elif sp["bk"] != sd["bk"]:
-                fail("builder bookkeeping differs after " + where, prog, {"P": sp["bk"], "D": sd["bk"]})
-        for i, (a, b) in enumerate(zip(P["steps"], D["steps"])):
-            if [s["bk"] for s in a] != [s["bk"] for s in b]:
-                fail("builder bookkeeping differs inside segment %d" % i, prog, None)
-        if P["futures"] != D["futures"]:
-            fail("host-visible values differ after close()", prog, {"P": P["futures"], "D": D["futures"]})
+        bad = None
+        if P["msgs"] != D["msgs"]:
+            k = next((i for i, (a, b) in enumerate(zip(P["msgs"], D["msgs"])) if a != b),
+                     min(len(P["msgs"]), len(D["msgs"])))
+            bad = ("bytes sent differ (message %d)" % k,
+                   {"P": P["msgs"][k:k + 1], "D": D["msgs"][k:k + 1]})
+        for i, (rp, rd) in enumerate(zip(P["events"], D["events"])):
+            if bad:
+                break
+            where = "after event %d (%s)" % (i, prog["events"][i]["k"])
+            if rp["outstanding"] == 0 and rp["bk"] != rd["bk"]:
+                # (while a compiled subroutine is uncommitted only the model is compared strictly)
+                bad = ("builder bookkeeping differs " + where, {"P": rp["bk"], "D": rd["bk"]})
+            elif rp["handles"] != rd["handles"]:
+                bad = ("qubit handles differ " + where, {"P": rp["handles"], "D": rd["handles"]})
+            elif rp["note"]:
+                bad = ("harness: " + rp["note"], None)
+            elif rp["outstanding"] == 0:
+                # synchronisation point: the controller has received the same subroutines
+                if rp["nmsgs"] != rd["nmsgs"]:
+                    bad = ("number of messages differs " + where, {"P": rp["nmsgs"], "D": rd["nmsgs"]})
+                elif P["trace"][:rp["ntrace"]] != D["trace"][:rd["ntrace"]] or rp["ntrace"] != rd["ntrace"]:
+                    bad = ("controller trace differs " + where, None)
+                elif rp["state"] != rd["state"]:
+                    bad = ("controller arrays / shared memory differ " + where,
+                           {"P": rp["state"], "D": rd["state"]})
+        if not bad and P["trace"] != D["trace"]:
+            bad = ("controller trace differs at the end", None)
+        if not bad and P["close"] != D["close"]:
+            bad = ("state after close() differs", {"P": P["close"], "D": D["close"]})
+        if not bad and P["futures"] != D["futures"]:
+            bad = ("host-visible values differ after close()", {"P": P["futures"], "D": D["futures"]})
+        if bad:
+            fail(bad[0], prog, bad[1])
         # ---- correspondence with the bookkeeping model
-        model = ctx.driver.call(H.model_request(prog, P))["segs"]
-        real_segs = P["segs"] + [P["close"]]
-        for i, (ms, rs) in enumerate(zip(model, real_segs)):
-            steps = P["steps"][i] if i < len(P["steps"]) else []
-            rewritten = any(s["rewrite"] for s in steps)
-            if [s["bk"] for s in steps] != ms["steps"] and not rewritten:
-                res.disagreements.append({"stream": stream + ".bookkeeping-steps", "input": {"prog": prog, "seg": i},
-                                          "model": ms["steps"], "code": [s["bk"] for s in steps]})
-            if ms["bk"] != rs["bk"]:
-                res.disagreements.append({"stream": stream + ".bookkeeping", "input": {"prog": prog, "seg": i},
-                                          "model": ms["bk"], "code": rs["bk"]})
+        rewritten = any(r.get("rewrite") for r in P["events"])
+        model = ctx.driver.call(H.model_request(prog, P))
+        msteps = model["steps"]
+        for i, rp in enumerate(P["events"]):
+            ms = msteps[i] if i < len(msteps) else None
+            if ms is None:
+                res.disagreements.append({"stream": stream + ".vocabulary", "input": {"prog": prog, "event": i},
+                                          "model": None, "code": rp["bk"]})
+                break
+            mbk = dict(ms["bk"])
+            rbk = dict(rp["bk"])
             if rewritten:
-                res.count("model:sub-skipped(peephole rewrote pending commands)")
-                continue
-            vals = prog["segs"][i]["pre"] if i < len(prog["segs"]) else None
-            real_sub = rs["proto"]
-            if real_sub is not None and vals is not None:
-                real_sub = H.subst_rendered(real_sub, vals)
-            if ms["sub"] != real_sub:
-                res.disagreements.append({"stream": stream + ".subroutine", "input": {"prog": prog, "seg": i},
-                                          "model": ms["sub"], "code": real_sub})
-            # the direct flow's proto-subroutine is the instantiated one
-            dsub = (D["segs"] + [D["close"]])[i]["proto"]
-            if ms["sub"] != dsub:
-                res.disagreements.append({"stream": stream + ".subroutine-direct", "input": {"prog": prog, "seg": i},
-                                          "model": ms["sub"], "code": dsub})
+                mbk.pop("pending"), rbk.pop("pending")
+            if mbk != rbk or ms["queue"] != rp["outstanding"]:
+                res.disagreements.append({"stream": stream + ".bookkeeping", "input": {"prog": prog, "event": i},
+                                          "model": ms, "code": {"bk": rp["bk"], "outstanding": rp["outstanding"]}})
+                break
+        else:
+            if len(msteps) == len(P["events"]) + 1 and msteps[-1] is not None:
+                if msteps[-1]["bk"] != P["close"]["bk"]:
+                    res.disagreements.append({"stream": stream + ".bookkeeping-close", "input": {"prog": prog},
+                                              "model": msteps[-1]["bk"], "code": P["close"]["bk"]})
+                if rewritten:
+                    res.count("model:subroutines-skipped(peephole rewrote pending commands)")
+                else:
+                    for name, flow in (("P", P), ("D", D)):
+                        if model["subs"] != flow["protos"]:
+                            res.disagreements.append({"stream": stream + ".subroutines-" + name, "input": {"prog": prog},
+                                                      "model": model["subs"], "code": flow["protos"]})
         return P, D
 
     P, D = one(F7_WITNESS, "tpl.corpus")
-    res.samples.append({"prog": F7_WITNESS, "futures": P["futures"], "close_bytes": P["close"]["bytes"] if P["close"] else None})
+    res.samples.append({"prog": F7_WITNESS, "futures": P["futures"], "msgs": len(P["msgs"] or [])})
+    P, D = one(INTERLEAVED, "tpl.corpus")
+    res.samples.append({"prog": INTERLEAVED, "futures": P["futures"], "msgs": len(P["msgs"] or [])})
     n = 30000 if ctx.thorough else 2500
     for it in range(n):
         prog = H.random_program(rng, ctx.thorough)
@@ -140,12 +181,12 @@ def run(ctx):
             res.samples.append({"prog": prog, "futures": P["futures"]})
     # all template values 0..255 on one fixed program shape
     for v in (range(256) if ctx.thorough else range(0, 256, 5)):
-        prog = {"cfg": {"nv": v % 2 == 1, "transp": v % 4 == 3, "maxq": 3},
-                "segs": [{"body": [{"k": "new"}, {"k": "rot", "h": 0, "axis": "XYZ"[v % 3], "n": {"t": "a"}, "d": v % 8},
-                                   {"k": "rot", "h": 0, "axis": "Z", "n": {"t": "b"}, "d": 4},
-                                   {"k": "meas", "h": 0, "mode": "reg" if v % 5 == 0 else "array", "inplace": False}],
-                          "pre": {"a": v, "b": 255 - v}},
-                         {"body": [{"k": "new"}, {"k": "meas", "h": 1, "mode": "array", "inplace": False}], "pre": None}]}
+        segs = [{"body": [{"k": "new"}, {"k": "rot", "h": 0, "axis": "XYZ"[v % 3], "n": {"t": "a"}, "d": v % 8},
+                          {"k": "rot", "h": 0, "axis": "Z", "n": {"t": "b"}, "d": 4},
+                          {"k": "meas", "h": 0, "mode": "reg" if v % 5 == 0 else "array", "inplace": False}],
+                 "pre": {"a": v, "b": 255 - v}},
+                {"body": [{"k": "new"}, {"k": "meas", "h": 1, "mode": "array", "inplace": False}], "pre": None}]
+        prog = {"cfg": {"nv": v % 2 == 1, "transp": v % 4 == 3, "maxq": 3}, "events": H.segs_to_events(segs)}
         one(prog, "tpl.values")
     return res
 
@@ -155,7 +196,8 @@ def replay(ctx, payload):
     prog = payload["failure"]["input"]["prog"]
     P = H.run_flow(prog, "P", [0] * 40)
     D = H.run_flow(prog, "D", [0] * 40)
-    same = all(P[k] == D[k] for k in ("futures", "error")) and \
-        [s["bytes"] for s in P["segs"]] == [s["bytes"] for s in D["segs"]] and P["close"] == D["close"]
-    print(json.dumps({"P": P["futures"], "D": D["futures"], "same": same}))
+    same = all(P[k] == D[k] for k in ("futures", "error", "msgs", "trace", "close")) and \
+        [r["bk"] for r in P["events"]] == [r["bk"] for r in D["events"]]
+    print(json.dumps({"P": P["futures"], "D": D["futures"], "P_msgs": P["msgs"], "D_msgs": D["msgs"],
+                      "same": same}))
     return 0 if same else 1
